@@ -83,6 +83,18 @@ CHECKS["C19"] = {
     "assumptions": ["one clock for all parties", _SAMPLING],
 }
 
+CHECKS["C07"] = {
+    "level": "exploration",
+    "technique": _TECH + ": generated histories of real client handshakes over (tag, address, command) with server restarts, connection resets, virtual-time expiry and invalidation; reference reuse map",
+    "level_text": "Seeded exploration of histories: 5-12 steps of real client handshakes (bare Authenticator and client.ConnectAndAuthenticateWithConfig through the dial hook) over 3 tags x 2 server addresses x 3 commands against real servers that declare different valid-command sets, interleaved with server restarts (server cache cleared), a connection reset at a drawn I/O step of the next client connection, sleeps of 50-700 virtual seconds across the 600 s duration and 200 s lease, InvalidateExpired and explicit Invalidate. A reference map records under which tag, address and valid commands each session was established and whether it has been dropped; a handshake that resumes outside the map (other tag or none, other server, undeclared command, dropped, definitely expired, unknown) is a violation; after every failed resumption, invalidation or expiry, Lookup, LookupNonExpired and LookupByCommand over the whole key space must no longer reach the session. A fault-free scenario asserts that the same triple does resume and another tag does not.",
+    "level_note": "All simulated servers share cedar's process-global server-side cache, so a restart forgets sessions for all of them at once. Expiry uses sound windows (definitely dead after max(create+duration, lastUse+lease)).",
+    "budget": {"quick": 25, "thorough": 900},
+    "rule": "a case is one generated history; distinct = distinct event-log hash; non-trivial = a fault fired (reset, restart) or the scheduler had a choice.",
+    "real": _REAL_SEC + ["client.ConnectAndAuthenticateWithConfig (dial hook)", "security.SessionCache"],
+    "stub": _SIM,
+    "assumptions": ["one clock for all parties", _SAMPLING],
+}
+
 CHECKS["C10"] = {
     "level": "exploration",
     "technique": _TECH + ": two real endpoints over the simulated network for every cell of the policy matrix; independently written decision table as oracle",
